@@ -133,6 +133,33 @@ def n_workers() -> int:
     return int(os.environ.get("VERIF_WORKERS", min(16, os.cpu_count() or 1)))
 
 
+class _NoDaemonProcess(mp.get_context("spawn").Process):
+    """Pool workers must be able to start joblib/loky children (n_jobs > 1 cells): joblib silently falls back to
+    n_jobs=1 inside daemonic processes."""
+
+    @property
+    def daemon(self):
+        return False
+
+    @daemon.setter
+    def daemon(self, value):
+        pass
+
+
+class _NoDaemonContext(type(mp.get_context("spawn"))):
+    Process = _NoDaemonProcess
+
+
+def shutdown_loky():
+    """Stop the reusable loky executor of this process (called at the end of cells that used n_jobs > 1)."""
+    try:
+        from joblib.externals.loky import get_reusable_executor
+
+        get_reusable_executor().shutdown(wait=True, kill_workers=True)
+    except Exception:  # noqa: BLE001
+        pass
+
+
 class Pool:
     def __init__(self, workers: int | None = None):
         self.workers = workers or n_workers()
@@ -140,7 +167,9 @@ class Pool:
 
     def __enter__(self):
         if self.workers > 1:
-            self._pool = mp.get_context("spawn").Pool(self.workers, initializer=_worker_init)
+            import multiprocessing.pool
+
+            self._pool = multiprocessing.pool.Pool(self.workers, initializer=_worker_init, context=_NoDaemonContext())
         return self
 
     def __exit__(self, *a):
